@@ -23,7 +23,7 @@ func TestVerif(t *testing.T) {
 	driver.Main(t, driver.Harness{
 		ID:    "C16",
 		Level: "model_checking",
-		Rule: "auth.Client over an in-process transport hosting two registries (a.example, b.example) and their token realms (one on the registry's own host, one on a foreign host), each with distinct recognisable secrets. " +
+		Rule: "auth.Client over an in-process transport hosting two registries (a.example, and b.example or - same host name, other port - a.example:8443) and their token realms (one on the registry's own host, one on a foreign host), each with distinct recognisable secrets. " +
 			"sequential: every request sequence of length <= 3 (thorough 4) over {registry A|B} x {scope hint r1:pull | r2:pull,push | none} plus a request that registry A redirects to registry B, for every pair of per-registry auth modes {Basic, Bearer distribution, Bearer OAuth2 refresh token, Bearer OAuth2 password+ForceAttemptOAuth2, access token}, " +
 			"every cache flavour {none, shared, single-context}, a scheme change of registry A after request {never,1,2}, and 3 renderings of the challenge scope string (order / duplication / wildcard action). " +
 			"concurrent: 2-3 goroutines through one cache (same host and scope, same host different scopes, different hosts, first caller cancelled during the token fetch) under every schedule within D<=2. " +
@@ -32,6 +32,7 @@ func TestVerif(t *testing.T) {
 			"Separately CleanScopes over every scope list of <= 3 items from a 7-item alphabet: idempotent, order-insensitive, duplicate-free, wildcard-absorbing. non-trivial = distinct sequence containing both hosts or a cache hit",
 		Assumptions: []string{
 			"the Authorization copy made by the blob upload path of Repository is Repository code, not the auth client, and is outside this property",
+			"a cross-registry redirect is only generated towards b.example: towards the same host name on another port net/http itself copies the Authorization header (its same-domain redirect policy), which is not the auth client's doing",
 			"for NewSingleContextCache per-host token reuse across scopes is that flavour's documented contract: only host and scheme are judged there",
 		},
 		Jobs:           jobs,
@@ -73,7 +74,7 @@ type world struct {
 func newWorld(modeA, modeB string, scopeForm int) *world {
 	w := &world{regs: map[string]*regSpec{}, realmOf: map[string]string{}, tokens: map[string]issued{}, sends: map[string]int{}, scopeForm: scopeForm}
 	w.regs["a.example"] = &regSpec{host: "a.example", realm: "https://a.example/token", user: "userA", pass: "PASSWORD-A", refresh: "REFRESH-A", token: "ACCESS-A", mode: modeA}
-	w.regs["b.example"] = &regSpec{host: "b.example", realm: "https://auth.example/b/token", user: "userB", pass: "PASSWORD-B", refresh: "REFRESH-B", token: "ACCESS-B", mode: modeB}
+	w.regs[hostB] = &regSpec{host: hostB, realm: "https://auth.example/b/token", user: "userB", pass: "PASSWORD-B", refresh: "REFRESH-B", token: "ACCESS-B", mode: modeB}
 	for h, r := range w.regs {
 		u, _ := url.Parse(r.realm)
 		w.realmOf[u.Host+u.Path] = h
@@ -215,8 +216,8 @@ func (w *world) RoundTrip(req *http.Request) (*http.Response, error) {
 	}
 	if owner == "a.example" && strings.HasPrefix(req.URL.Path, "/v2/rd/") {
 		// registry A hands this repository over to registry B (e.g. a mirror): a cross-host redirect
-		w.log = append(w.log, fmt.Sprintf("%s a.example%s -> 307 b.example auth=%q", req.Header.Get("X-Verif-Req"), req.URL.Path, trunc(req.Header.Get("Authorization"))))
-		return resp(req, 307, http.Header{"Location": {"https://b.example" + req.URL.Path}}, ""), nil
+		w.log = append(w.log, fmt.Sprintf("%s a.example%s -> 307 "+hostB+" auth=%q", req.Header.Get("X-Verif-Req"), req.URL.Path, trunc(req.Header.Get("Authorization"))))
+		return resp(req, 307, http.Header{"Location": {"https://" + hostB + req.URL.Path}}, ""), nil
 	}
 	id := req.Header.Get("X-Verif-Req")
 	w.sends[id]++
@@ -335,7 +336,15 @@ type reqKind struct {
 // the last kind asks registry A for repository "rd", which A answers with a redirect to registry B
 var reqKinds = []reqKind{{"a.example", "r1"}, {"a.example", "r2"}, {"a.example", ""}, {"b.example", "r1"}, {"b.example", "r2"}, {"b.example", ""}, {"a.example", "rd"}}
 
+// hostB is the name of registry B for the current execution: "b.example", or
+// "a.example:8443" - the same host name as registry A on another port, still a
+// different registry with its own credentials and realm.
+var hostB = "b.example"
+
 func doReq(ctx context.Context, c *auth.Client, id string, k reqKind) (*http.Response, error) {
+	if k.host == "b.example" {
+		k.host = hostB
+	}
 	repo := k.repo
 	if repo == "" {
 		repo = "r1"
@@ -382,9 +391,10 @@ func seq(c *driver.Ctx, ma, mb, cache string, depth int) (func(), func(*vs.Resul
 	body := func() {
 		form := vs.Choose(3, vs.KInput, "scopeform")
 		change := vs.Choose(3, vs.KInput, "schemechange") // A switches to the next mode after request 0 / 1 / never(0)
+		hostB = []string{"b.example", "a.example:8443"}[vs.Choose(2, vs.KInput, "hostB")]
 		w = newWorld(ma, mb, form)
 		cl := newClient(w, cache)
-		hist = append(hist, fmt.Sprintf("scopeform=%d change=%d", form, change))
+		hist = append(hist, fmt.Sprintf("scopeform=%d change=%d registry B = %s", form, change, hostB))
 		for i := 0; i < depth; i++ {
 			k := reqKinds[vs.Choose(len(reqKinds), vs.KInput, "req")]
 			if change > 0 && i == change {
@@ -397,12 +407,14 @@ func seq(c *driver.Ctx, ma, mb, cache string, depth int) (func(), func(*vs.Resul
 				hist = append(hist, "A switches to "+w.regs["a.example"].mode)
 			}
 			id := fmt.Sprintf("q%d", i)
-			hist = append(hist, fmt.Sprintf("%s GET %s scope-hint=%q", id, k.host, k.repo))
+			hist = append(hist, fmt.Sprintf("%s GET %s scope-hint=%q", id, map[bool]string{true: "B", false: "A"}[k.host == "b.example"], k.repo))
 			if k.repo == "rd" {
 				// Redirected request: judged by the leak oracle only (A's credentials are not B's, so the
 				// answer may be 401). Generated only when B challenges with Basic: a Bearer challenge arriving
 				// through a redirect names B's realm as if A had advertised it, which the statement does not cover.
-				if mb == "basic" {
+				// Not generated when B shares A's host name: net/http itself copies Authorization on a redirect
+				// within one domain (any port), which is the standard library's policy, not the auth client's.
+				if mb == "basic" && hostB == "b.example" {
 					if rs, err := doReq(context.Background(), cl, id, k); err == nil {
 						rs.Body.Close()
 					}
@@ -443,7 +455,7 @@ func seq(c *driver.Ctx, ma, mb, cache string, depth int) (func(), func(*vs.Resul
 			f.Detail = strings.Join(hist, "\n") + "\n" + f.Detail
 			return f
 		}
-		both := strings.Contains(strings.Join(hist, " "), "a.example") && strings.Contains(strings.Join(hist, " "), "b.example")
+		both := strings.Contains(strings.Join(hist, " "), "GET A") && strings.Contains(strings.Join(hist, " "), "GET B")
 		if both {
 			c.Nontriv(driver.Hash(ma, mb, cache, strings.Join(hist, ";")))
 		}
@@ -576,6 +588,7 @@ func concJobs(th bool) []driver.Job {
 }
 
 func conc(c *driver.Ctx, sc cscen) (func(), func(*vs.Result) *driver.Fail) {
+	hostB = "b.example"
 	w := newWorld(sc.modeA, "dist", 1)
 	cl := newClient(w, sc.cache)
 	type result struct {
